@@ -59,7 +59,7 @@ def py_props(o, s):
         return {}
     script = o["script"]
     res = {"c27": True, "c29": True, "c30": True}
-    only_doc = all(m["kind"] in ("open", "change", "close") for m in script)
+    only_doc = all(m["kind"] in ("open", "change", "close", "watch") for m in script)   # as OnlyDocMsgs in LsSync.tla
     disk = s.get("disk", {})
     late = set(s.get("late", []))
     for u in fin["vfs"]:
